@@ -99,6 +99,8 @@ InputsSched(st) ==
           ELSE {})
     \cup (IF st.pc \in {"Down", "Dead"} THEN {} ELSE
             (IF st.pc = "Await" THEN {[k |-> "rx", f |-> Resp(st.cur.seq, st.cur.a, "data", {})],
+                                      \* an answer the master rejects is link activity all the same
+                                      [k |-> "rx", f |-> Resp(st.cur.seq, st.cur.a, "data", {"err"})],
                                       [k |-> "rx", f |-> F(-1, 0, TRUE, TRUE, FALSE, FALSE, st.cur.a, {}, "link", 0)]}
              ELSE {[k |-> "rx", f |-> F(-1, 0, TRUE, TRUE, FALSE, FALSE, 1, {}, "link", 0)]}))
     \cup Timers(st) \cup {[k |-> "adv", dt |-> 500]}
